@@ -82,7 +82,7 @@ func main() {
 		}
 
 		n := c.Size(2500, 40000)
-		for i := 0; i < n; i++ {
+		for i := 0; i < n && !scanx.Hung; i++ {
 			r := c.R
 			cfg := &scanx.Cfg{SymlinkMode: slModes[i%3], PermsMode: pmModes[(i/3)%2]}
 			px, du := (i/6)%2 == 0, (i/12)%4 == 3
@@ -92,7 +92,7 @@ func main() {
 
 			// The tree.
 			var tree *scanx.Node
-			opts := scanx.GenOpts{MaxDepth: 1 + r.Intn(3), MaxKids: 2 + r.Intn(5)}
+			opts := scanx.GenOpts{MaxDepth: 1 + r.Intn(3), MaxKids: 2 + r.Intn(5), SizeMismatch: true}
 			tmpfsRoot := false
 			switch k := r.Intn(100); {
 			case k < 4:
